@@ -199,6 +199,14 @@ def run_case(case, ctx, mode):
                         "long_body", "start_on_rhs"} & set(cls))
     ctx.case(fp, nontriv, list(cls) + [f"sr:{R}"])
     ctx.sample({"case": case, "classes": cls})
+    if mode == "structure":
+        # the library's own normal-form predicate (asserted by cnf) must agree with the independent shape predicate
+        # on arbitrary grammars, not only on cnf outputs
+        ok, verdict = ctx.call("cfg.cnf", dict(case, transformation="in_cnf"), cfg.in_cnf, mech_prefix="in_cnf")
+        if ok:
+            indep = not shape_violations("cnf", cfg, cfg)
+            ctx.check("cfg.cnf", bool(verdict) == indep, "in_cnf/disagrees-with-shape-predicate", dict(case, transformation="in_cnf"),
+                      {"in_cnf": bool(verdict), "independent_predicate": indep, "rules": [[r.w, r.head, list(r.body)] for r in cfg.rules][:30]})
     for name, thunk in transformations(cfg, rng):
         api = f"cfg.{name.split('(')[0]}" if mode == "structure" else "T(cfg)(xs)"
         c2 = dict(case, transformation=name)
@@ -208,6 +216,10 @@ def run_case(case, ctx, mode):
         ctx.shape[f"T:{name.split('(')[0]}"] += 1
         if mode == "structure":
             bad = shape_violations(name, cfg, out)
+            if name == "cnf" and not bad:
+                okc, v2 = ctx.call(api, c2, out.in_cnf, mech_prefix="in_cnf")
+                if okc and not v2:
+                    bad = [("in_cnf/rejects-cnf-output", {})]
             if bad:
                 for mech, detail in bad:
                     ctx.violated(api, mech, c2, dict(detail, transformation=name, out_rules=[[r.w, r.head, list(r.body)] for r in out.rules][:30]))
